@@ -11,13 +11,26 @@ import (
 	"go/token"
 	"go/types"
 	"os"
-	"reflect"
-	"strings"
 	"unsafe"
 
 	"golang.org/x/tools/go/ssa"
-	"golang.org/x/tools/internal/typeparams"
 )
+
+// runtimePanic is a Go run-time panic of the target program (index out of
+// range, nil dereference, failed type assertion, ...), raised deliberately by
+// the interpreter. Any other Go panic inside the interpreter is an engine bug.
+type runtimePanic struct {
+	msg string
+}
+
+func (p runtimePanic) Error() string { return p.msg }
+
+func mustDeref(t types.Type) types.Type {
+	if p, ok := t.Underlying().(*types.Pointer); ok {
+		return p.Elem()
+	}
+	panic(fmt.Sprintf("mustDeref: not a pointer: %s", t))
+}
 
 // If the target program panics, the interpreter panics with this type.
 type targetPanic struct {
@@ -258,10 +271,7 @@ func zero(t types.Type) value {
 	case *types.Chan:
 		return chan value(nil)
 	case *types.Map:
-		if usesBuiltinMap(t.Key()) {
-			return map[value]value(nil)
-		}
-		return (*hashmap)(nil)
+		return (*smap)(nil)
 	case *types.Signature:
 		return (*ssa.Function)(nil)
 	}
@@ -269,38 +279,60 @@ func zero(t types.Type) value {
 }
 
 // slice returns x[lo:hi:max].  Any of lo, hi and max may be nil.
-func slice(x, lo, hi, max value) value {
+func (i *interpreter) slice(x, lo, hi, max value) value {
 	var Len, Cap int
+	isString := false
 	switch x := x.(type) {
 	case string:
 		Len = len(x)
+		Cap = Len
+		isString = true
+	case *symstr:
+		Len = len(x.s)
+		Cap = Len
+		isString = true
 	case []value:
 		Len = len(x)
 		Cap = cap(x)
 	case *value: // *array
+		if x == nil {
+			panic(runtimePanic{"runtime error: invalid memory address or nil pointer dereference"})
+		}
 		a := (*x).(array)
 		Len = len(a)
 		Cap = cap(a)
 	}
 
-	l := int64(0)
+	// Bounds: 0 <= l <= h <= m <= cap. Symbolic bounds are checked by
+	// decisions (so the panic side is explored) and then pinned.
+	var lv, hv, mv value = int(0), int(Len), int(Cap)
 	if lo != nil {
-		l = asInt64(lo)
+		lv = lo
 	}
-
-	h := int64(Len)
 	if hi != nil {
-		h = asInt64(hi)
+		hv = hi
 	}
-
-	m := int64(Cap)
 	if max != nil {
-		m = asInt64(max)
+		mv = max
 	}
+	check := func(a, b value, msg string) {
+		ok := i.binop(token.LEQ, nil, i.toInt(a), i.toInt(b))
+		if !i.decide(ok, BrIf, "slice bounds check") {
+			panic(runtimePanic{fmt.Sprintf("runtime error: slice bounds out of range (%s: %v > %v)", msg, conc(a), conc(b))})
+		}
+	}
+	check(int(0), lv, "low")
+	check(lv, hv, "low:high")
+	check(hv, mv, "high:max")
+	check(mv, int(Cap), "max:cap")
+	l := i.intS(lv, "slice low")
+	h := i.intS(hv, "slice high")
+	m := i.intS(mv, "slice max")
 
 	switch x := x.(type) {
-	case string:
-		return x[l:h]
+	case string, *symstr:
+		_ = isString
+		return strSlice(x, int(l), int(h))
 	case []value:
 		return x[l:h:m]
 	case *value: // *array
@@ -310,19 +342,25 @@ func slice(x, lo, hi, max value) value {
 	panic(fmt.Sprintf("slice: unexpected X type: %T", x))
 }
 
-// lookup returns x[idx] where x is a map.
-func lookup(instr *ssa.Lookup, x, idx value) value {
-	switch x := x.(type) { // map or string
-	case map[value]value, *hashmap:
-		var v value
-		var ok bool
-		switch x := x.(type) {
-		case map[value]value:
-			v, ok = x[idx]
-		case *hashmap:
-			v = x.lookup(idx.(hashable))
-			ok = v != nil
+// toInt converts any integer value (possibly symbolic) to type int.
+func (i *interpreter) toInt(v value) value {
+	switch x := v.(type) {
+	case int:
+		return v
+	case sym:
+		if _, ok := x.c.(int); ok {
+			return v
 		}
+		return i.convS(types.Typ[types.Int], types.Typ[types.Int64], x)
+	}
+	return int(asInt64(v))
+}
+
+// lookup returns x[idx] where x is a map.
+func (i *interpreter) lookup(instr *ssa.Lookup, x, idx value) value {
+	switch x := x.(type) { // map
+	case *smap:
+		v, ok := x.lookup(i, idx)
 		if !ok {
 			v = zero(instr.X.Type().Underlying().(*types.Map).Elem())
 		}
@@ -332,6 +370,32 @@ func lookup(instr *ssa.Lookup, x, idx value) value {
 		return v
 	}
 	panic(fmt.Sprintf("unexpected x type in Lookup: %T", x))
+}
+
+// binop dispatches to the symbolic or the concrete implementation.
+func (i *interpreter) binop(op token.Token, t types.Type, x, y value) value {
+	if isSym(x) || isSym(y) {
+		return i.binopS(op, t, x, y)
+	}
+	switch op {
+	case token.EQL:
+		return i.equalsS(t, x, y)
+	case token.NEQ:
+		return i.notS(i.equalsS(t, x, y))
+	case token.QUO, token.REM:
+		switch y.(type) {
+		case float32, float64, complex64, complex128:
+		default:
+			if asInt64(y) == 0 {
+				panic(runtimePanic{"runtime error: integer divide by zero"})
+			}
+		}
+	case token.SHL, token.SHR:
+		if _, ok := asUnsigned(y); !ok {
+			panic(runtimePanic{"runtime error: negative shift amount"})
+		}
+	}
+	return binop(op, t, x, y)
 }
 
 // binop implements all arithmetic and logical binary operators for
@@ -816,10 +880,8 @@ func eqnil(t types.Type, x, y value) bool {
 		// Since these types don't support comparison,
 		// one of the operands must be a literal nil.
 		switch x := x.(type) {
-		case *hashmap:
-			return (x != nil) == (y.(*hashmap) != nil)
-		case map[value]value:
-			return (x != nil) == (y.(map[value]value) != nil)
+		case *smap:
+			return (x != nil) == (y.(*smap) != nil)
 		case *ssa.Function:
 			switch y := y.(type) {
 			case *ssa.Function:
@@ -828,7 +890,11 @@ func eqnil(t types.Type, x, y value) bool {
 				return true
 			}
 		case *closure:
-			return (x != nil) == (y.(*ssa.Function) != nil)
+			switch y := y.(type) {
+			case *ssa.Function:
+				return (x != nil) == (y != nil)
+			}
+			return true
 		case []value:
 			return (x != nil) == (y.([]value) != nil)
 		}
@@ -836,6 +902,22 @@ func eqnil(t types.Type, x, y value) bool {
 	}
 
 	return equals(t, x, y)
+}
+
+func (i *interpreter) unop(instr *ssa.UnOp, x value) value {
+	if sx, ok := x.(sym); ok {
+		return i.unopS(instr.Op, sx)
+	}
+	if instr.Op == token.MUL {
+		if r, ok := x.(*symref); ok {
+			v, _ := selectS(r.elems, r.idx, r.k)
+			return v
+		}
+		if x.(*value) == nil {
+			panic(runtimePanic{"runtime error: invalid memory address or nil pointer dereference"})
+		}
+	}
+	return unop(instr, x)
 }
 
 func unop(instr *ssa.UnOp, x value) value {
@@ -883,7 +965,7 @@ func unop(instr *ssa.UnOp, x value) value {
 			return -x
 		}
 	case token.MUL:
-		return load(typeparams.MustDeref(instr.X.Type()), x.(*value))
+		return load(mustDeref(instr.X.Type()), x.(*value))
 	case token.NOT:
 		return !x.(bool)
 	case token.XOR:
@@ -939,7 +1021,7 @@ func typeAssert(i *interpreter, instr *ssa.TypeAssert, itf iface) value {
 
 	if err != "" {
 		if !instr.CommaOk {
-			panic(err)
+			panic(runtimePanic{err})
 		}
 		return tuple{zero(instr.AssertedType), false}
 	}
@@ -955,27 +1037,24 @@ var CapturedOutput *bytes.Buffer
 // callBuiltin interprets a call to builtin fn with arguments args,
 // returning its result.
 func callBuiltin(caller *frame, callpos token.Pos, fn *ssa.Builtin, args []value) value {
+	i := caller.i
 	switch fn.Name() {
 	case "append":
 		if len(args) == 1 {
 			return args[0]
 		}
-		if s, ok := args[1].(string); ok {
+		if isStr(args[1]) {
 			// append([]byte, ...string) []byte
 			arg0 := args[0].([]value)
-			for i := 0; i < len(s); i++ {
-				arg0 = append(arg0, s[i])
-			}
-			return arg0
+			return append(arg0, strToBytes(args[1])...)
 		}
 		// append([]T, ...[]T) []T
 		return append(args[0].([]value), args[1].([]value)...)
 
 	case "copy": // copy([]T, []T) int or copy([]byte, string) int
 		src := args[1]
-		if _, ok := src.(string); ok {
-			params := fn.Type().(*types.Signature).Params()
-			src = conv(params.At(0).Type(), params.At(1).Type(), src)
+		if isStr(src) {
+			src = strToBytes(src)
 		}
 		return copy(args[0].([]value), src.([]value))
 
@@ -985,12 +1064,23 @@ func callBuiltin(caller *frame, callpos token.Pos, fn *ssa.Builtin, args []value
 
 	case "delete": // delete(map[K]value, K)
 		switch m := args[0].(type) {
-		case map[value]value:
-			delete(m, args[1])
-		case *hashmap:
-			m.delete(args[1].(hashable))
+		case *smap:
+			m.delete(i, args[1])
 		default:
 			panic(fmt.Sprintf("illegal map type: %T", m))
+		}
+		return nil
+
+	case "clear":
+		switch m := args[0].(type) {
+		case *smap:
+			m.clear()
+		case []value:
+			// zeroing needs the element type
+			tElt := fn.Type().(*types.Signature).Params().At(0).Type().Underlying().(*types.Slice).Elem()
+			for k := range m {
+				m[k] = zero(tElt)
+			}
 		}
 		return nil
 
@@ -1013,15 +1103,15 @@ func callBuiltin(caller *frame, callpos token.Pos, fn *ssa.Builtin, args []value
 		switch x := args[0].(type) {
 		case string:
 			return len(x)
+		case *symstr:
+			return len(x.s)
 		case array:
 			return len(x)
 		case *value:
 			return len((*x).(array))
 		case []value:
 			return len(x)
-		case map[value]value:
-			return len(x)
-		case *hashmap:
+		case *smap:
 			return x.len()
 		case chan value:
 			return len(x)
@@ -1044,9 +1134,9 @@ func callBuiltin(caller *frame, callpos token.Pos, fn *ssa.Builtin, args []value
 		}
 
 	case "min":
-		return foldLeft(min, args)
+		return foldLeft(i.min, args)
 	case "max":
-		return foldLeft(max, args)
+		return foldLeft(i.max, args)
 
 	case "real":
 		switch c := args[0].(type) {
@@ -1091,8 +1181,8 @@ func callBuiltin(caller *frame, callpos token.Pos, fn *ssa.Builtin, args []value
 		if recv.(*value) == nil {
 			recvType := args[1]
 			methodName := args[2]
-			panic(fmt.Sprintf("value method (%s).%s called using nil *%s pointer",
-				recvType, methodName, recvType))
+			panic(runtimePanic{fmt.Sprintf("value method (%s).%s called using nil *%s pointer",
+				recvType, methodName, recvType)})
 		}
 		return recv
 
@@ -1103,14 +1193,12 @@ func callBuiltin(caller *frame, callpos token.Pos, fn *ssa.Builtin, args []value
 	panic("unknown built-in: " + fn.Name())
 }
 
-func rangeIter(x value, t types.Type) iter {
+func (i *interpreter) rangeIter(fr *frame, x value, t types.Type) iter {
 	switch x := x.(type) {
-	case map[value]value:
-		return &mapIter{iter: reflect.ValueOf(x).MapRange()}
-	case *hashmap:
-		return &hashmapIter{iter: reflect.ValueOf(x.entries()).MapRange()}
-	case string:
-		return &stringIter{Reader: strings.NewReader(x)}
+	case *smap:
+		return x.iter(i)
+	case string, *symstr:
+		return &stringIter{i: i, fr: fr, s: x}
 	}
 	panic(fmt.Sprintf("cannot range over %T", x))
 }
@@ -1155,6 +1243,55 @@ func widen(x value) value {
 // conv converts the value x of type t_src to type t_dst and returns
 // the result.
 // Possible cases are described with the ssa.Convert operator.
+func (i *interpreter) conv(t_dst, t_src types.Type, x value) value {
+	switch xv := x.(type) {
+	case sym:
+		return i.convS(t_dst, t_src, xv)
+	case *symstr:
+		switch ut := t_dst.Underlying().(type) {
+		case *types.Basic:
+			if ut.Kind() == types.String {
+				return x
+			}
+		case *types.Slice:
+			if b, ok := ut.Elem().Underlying().(*types.Basic); ok {
+				switch b.Kind() {
+				case types.Byte:
+					return strToBytes(x)
+				case types.Rune:
+					var res []value
+					it := &stringIter{i: i, s: x}
+					for {
+						tup := it.next()
+						if !tup[0].(bool) {
+							return res
+						}
+						res = append(res, tup[2])
+					}
+				}
+			}
+		}
+		panic(engineErrorf("conv: symbolic string to %s", t_dst))
+	case []value:
+		if bs, ok := t_src.Underlying().(*types.Slice); ok {
+			if b, ok := bs.Elem().Underlying().(*types.Basic); ok {
+				switch b.Kind() {
+				case types.Byte:
+					return bytesToStr(xv)
+				case types.Rune:
+					// []rune -> string with symbolic runes: enumerate
+					r := make([]rune, 0, len(xv))
+					for k := range xv {
+						r = append(r, i.concretize(xv[k], "[]rune to string").(rune))
+					}
+					return string(r)
+				}
+			}
+		}
+	}
+	return conv(t_dst, t_src, x)
+}
+
 func conv(t_dst, t_src types.Type, x value) value {
 	ut_src := t_src.Underlying()
 	ut_dst := t_dst.Underlying()
@@ -1423,31 +1560,35 @@ func foldLeft(op func(value, value) value, args []value) value {
 	return x
 }
 
-func min(x, y value) value {
-	switch x := x.(type) {
-	case float32:
-		return fmin(x, y.(float32))
-	case float64:
-		return fmin(x, y.(float64))
+func (i *interpreter) min(x, y value) value {
+	if !isSym(x) && !isSym(y) {
+		switch x := x.(type) {
+		case float32:
+			return fmin(x, y.(float32))
+		case float64:
+			return fmin(x, y.(float64))
+		}
 	}
 
 	// return (y < x) ? y : x
-	if binop(token.LSS, nil, y, x).(bool) {
+	if i.decide(i.binop(token.LSS, nil, y, x), BrIf, "min") {
 		return y
 	}
 	return x
 }
 
-func max(x, y value) value {
-	switch x := x.(type) {
-	case float32:
-		return fmax(x, y.(float32))
-	case float64:
-		return fmax(x, y.(float64))
+func (i *interpreter) max(x, y value) value {
+	if !isSym(x) && !isSym(y) {
+		switch x := x.(type) {
+		case float32:
+			return fmax(x, y.(float32))
+		case float64:
+			return fmax(x, y.(float64))
+		}
 	}
 
 	// return (y > x) ? y : x
-	if binop(token.GTR, nil, y, x).(bool) {
+	if i.decide(i.binop(token.GTR, nil, y, x), BrIf, "max") {
 		return y
 	}
 	return x
